@@ -1103,6 +1103,49 @@ class Interp:
                     pass
                 self._try_for_each(ctx, path, list(elems[i0:]), env, cf, dest, t, visited, out, site, blk, name)
                 return None
+        if p == "core::iter::traits::iterator::Iterator::for_each" and t["t"] is not None and len(args) == 2 \
+                and self.inline and ctx["depth"] < MAX_DEPTH and not is_ptr(args[0]):
+            # [a, b, c].into_iter().for_each(|x| ..) over a literal array with a workspace closure: the calls it stands for, in order
+            cur = args[0]
+            clo = args[1]
+            cf = None
+            if isinstance(clo, tuple) and clo and clo[0] == "agg" and clo[1].startswith("closure:"):
+                cf = self.w.find_fn(ctx["fn"]["crate"], clo[1][len("closure:"):])
+            if isinstance(cur, tuple) and cur and cur[0] == "citer" and cf is not None:
+                _, elems, i0 = cur
+                env = clo
+                try:
+                    if ctx["cr"].ty(cf["body"]["locals"][1]["ty"]).get("k") in ("ref", "ptr"):
+                        env = ("ptr", ("T", clo))
+                except Exception:
+                    pass
+                paths = [path]
+                for el in elems[i0:]:
+                    nxt = []
+                    for pth in paths:
+                        for r_ in self.run(cf, args=[env, el], path=pth, depth=ctx["depth"] + 1, subst=dict(ctx["subst"])):
+                            if r_.kind == "return":
+                                nxt.append(r_.path)
+                            else:
+                                out.append(r_)
+                    paths = nxt
+                for pth in paths:
+                    self.write(pth, dest, ("unit",))
+                    self._walk(ctx, t["t"], pth, visited, out)
+                return None
+        if p in ("core::bool::<impl bool>::then_some",) and t["t"] is not None and len(args) == 2:
+            # cond.then_some(v): Some(v) iff cond — a branch on cond, spelled as a call
+            cond = args[0]
+            known = cond[1] if (isinstance(cond, tuple) and cond and cond[0] == "int") else None
+            branches = [1, 0] if known is None else [1 if known else 0]
+            for i, bv in enumerate(branches):
+                p2 = path.fork() if i < len(branches) - 1 else path
+                if known is None:
+                    self.assume_switch(p2, cond, bv, [0], site, blk["sp"])
+                v = ("agg", "adt:Option::Some", (args[1],)) if bv else ("agg", "adt:Option::None", ())
+                self.write(p2, dest, v)
+                self._walk(ctx, t["t"], p2, visited, out)
+            return None
         if p in RESULT_DEFAULTING and t["t"] is not None and args:
             # a Result whose error is swallowed and replaced by a default: two continuations. On the error branch the value
             # no longer depends on what was being computed — rules see it through the terms (e.g. a MAC key made of a constant)
@@ -1745,6 +1788,11 @@ class Interp:
                     if len(rets) == 1:
                         return rets[0].ret
         if isinstance(f, tuple) and f and f[0] == "fn":
+            if f[1] in IDENT and f[1] not in ("core::convert::Into::into", "core::convert::From::from"):
+                # `.map(Vec::into_boxed_slice)` and friends: same bytes
+                if isinstance(x, tuple) and x and x[0] == "vec":
+                    return x
+                return ("vec", ("bytes_of", x)) if ("vec" in f[1] or "boxed" in f[1]) else x
             nm = short(f[1])
             last = nm.rsplit("::", 1)[-1]
             if last[:1].isupper():
